@@ -23,7 +23,12 @@
 //	update entry=E pts=<id=k,…>
 //	delete entry=E ids=<ids>
 //	state
-//	search entry=E kind=K arg=A limit=L offset=O  mode=score|keys opts=<0|1,…> answers=<…>   (answers: oracle)
+//	search entry=E kind=K arg=A limit=L offset=O  mode=score|keys opts=<property:a|d,…> answers=<…>   (answers: oracle)
+//
+// answers: per shard `x` (unavailable), `-` (no result) or `hit;hit;…`, shards separated by `|`; one hit is
+// `id~score~<DecodedData>` with the decoded data in the value syntax of the C06 stream
+// (N | B0 | B1 | I<w>:<dec> | U<w>:<dec> | F<hex8> | D<hex16> | S<hex> | X<hex> | A[v,…] | M{key=v,…}): the model
+// looks the sort properties up itself and compares them with C06's model of utils.CompareAny
 package main
 
 import (
@@ -73,6 +78,7 @@ func pointData(id int, k int64) map[string]any {
 	case 3:
 		d["m"] = int64(-id)
 	}
+	mixedProps(d, id, k) // x, y, n.z: values whose kinds mix the way MessagePack produces them (mixed.go)
 	return d
 }
 
@@ -531,6 +537,29 @@ func mkSearch(kind, arg, limit, offset int) searchSpec {
 	case 7: // sort property not selected by every result: only "m"
 		sr.Query = allQuery
 		keys([]string{"m"}, []bool{b(0)})
+	// ---- sort properties whose values mix kinds (mixed.go): the cluster's merge compares an uint8 of
+	// one shard with a float64 of another, an int64 beyond 2^53 with the float next to it, …
+	case 8: // numbers of every kind, some points without the property
+		sr.Query = allQuery
+		keys([]string{"x"}, []bool{b(0)})
+	case 9: // every class of value first, then numbers
+		sr.Query = allQuery
+		keys([]string{"y", "x"}, []bool{b(0), b(1)})
+	case 10: // ties on the first key across shards, mixed numbers decide
+		sr.Query = allQuery
+		keys([]string{"g", "x"}, []bool{b(0), b(1)})
+	case 11: // a first sort property no result has (`_id` is not part of the decoded data), then mixed numbers
+		sr.Query = allQuery
+		keys([]string{"_id", "x", "k"}, []bool{b(0), b(1), b(2)})
+	case 12: // nested path: numbers and strings under n.z, n a scalar, n missing
+		sr.Query = allQuery
+		keys([]string{"n.z", "k"}, []bool{b(0), b(1)})
+	case 13: // three sort options
+		sr.Query = allQuery
+		keys([]string{"x", "y", "k"}, []bool{b(0), b(1), b(2)})
+	case 14: // one group, mixed numbers, k breaks the ties (equal numbers of different kinds)
+		sr.Query = models.Query{Property: "g", Integer: &models.SearchIntegerOptions{Operator: models.OperatorEquals, Value: int64(arg % 3)}}
+		keys([]string{"x", "k"}, []bool{b(2), b(3)})
 	}
 	sp.sr = sr
 	return sp
@@ -547,47 +576,33 @@ func sortableScore(f float32) int64 {
 type hit struct {
 	id    int
 	score int64
-	keys  []string // i<n> | s<str> | n
-}
-
-func keyOf(v any, ok bool) string {
-	if !ok {
-		return "n"
-	}
-	switch x := v.(type) {
-	case int64:
-		return "i" + strconv.FormatInt(x, 10)
-	case string:
-		return "s" + x
-	}
-	return fmt.Sprintf("?%T", v)
+	data  map[string]any // DecodedData: the selected properties as msgpack decoded them
 }
 
 func toHit(r models.SearchResult, sp searchSpec) hit {
-	h := hit{id: tokenOf(r.Id), score: sortableScore(r.HybridScore)}
-	for _, p := range sp.props {
-		v, ok := r.DecodedData[p]
-		h.keys = append(h.keys, keyOf(v, ok))
+	h := hit{id: tokenOf(r.Id), score: sortableScore(r.HybridScore), data: map[string]any{}}
+	for k, v := range r.DecodedData {
+		h.data[k] = v
 	}
 	return h
 }
 
+// id~score~<DecodedData in the value syntax of the C06 stream>
 func (h hit) enc() string {
-	s := fmt.Sprintf("%d~%d", h.id, h.score)
-	for _, k := range h.keys {
-		s += "~" + k
-	}
-	return s
+	return fmt.Sprintf("%d~%d~%s", h.id, h.score, valTok(h.data))
 }
 
-func (h hit) rank(mode string) string {
-	if mode == "score" {
+// results with equal rank strings are tied under the comparator of the merge (mixed.go: classOf)
+func (h hit) rank(sp searchSpec) string {
+	if sp.mode == "score" {
 		return strconv.FormatInt(h.score, 10)
 	}
-	return strings.Join(h.keys, "~")
+	return rankKeys(h.data, sp.props)
 }
 
-// independent comparator for the order oracle: ≤ 0 iff a may come before b
+// independent comparator for the order oracle: > 0 iff b must stand before a (hybrid score: descending;
+// sort keys: the documented order of mixed.go — exact numeric value whatever the kinds, strings byte-wise,
+// numbers before strings, missing last; pairs the documentation does not order are not judged)
 func cmpHits(a, b hit, sp searchSpec) int {
 	if sp.mode == "score" {
 		switch {
@@ -598,52 +613,47 @@ func cmpHits(a, b hit, sp searchSpec) int {
 		}
 		return 0
 	}
-	for i := range sp.props {
-		x, y := a.keys[i], b.keys[i]
-		switch {
-		case x == "n" && y == "n":
-			continue
-		case x == "n":
-			return 1
-		case y == "n":
-			return -1
-		}
-		r := 0
-		switch {
-		case x[0] == 'i' && y[0] == 'i':
-			p, _ := strconv.ParseInt(x[1:], 10, 64)
-			q, _ := strconv.ParseInt(y[1:], 10, 64)
-			if p < q {
-				r = -1
-			} else if p > q {
-				r = 1
+	c, judged := refOrder(a.data, b.data, sp.props, sp.desc)
+	if !judged {
+		return 0
+	}
+	return c
+}
+
+// the order oracle: no returned result may stand before one that must precede it — every pair, not only
+// neighbours (pairs the documentation does not order break the chain of neighbours)
+func outOfOrder(rh []hit, sp searchSpec) (int, int, bool) {
+	for j := 1; j < len(rh); j++ {
+		for i := j - 1; i >= 0; i-- {
+			if cmpHits(rh[i], rh[j], sp) > 0 {
+				return i, j, true
 			}
-		case x[0] == 's' && y[0] == 's':
-			r = strings.Compare(x[1:], y[1:])
-		case x[0] == 'i':
-			r = -1
-		default:
-			r = 1
-		}
-		if sp.desc[i] {
-			r = -r
-		}
-		if r != 0 {
-			return r
 		}
 	}
-	return 0
+	return 0, 0, false
+}
+
+// opts=<property>:a|d,… — the sort options of the request
+func (sp searchSpec) optsTok() string {
+	var od []string
+	for i, p := range sp.props {
+		od = append(od, p+":"+map[bool]string{false: "a", true: "d"}[sp.desc[i]])
+	}
+	if len(od) == 0 {
+		return "-"
+	}
+	return strings.Join(od, ",")
 }
 
 // canonical form of a merged result (same rule as the driver's `canon`)
-func canon(r []hit, full []hit, mode string) string {
+func canon(r []hit, full []hit, sp searchSpec) string {
 	inR := map[int]bool{}
 	for _, h := range r {
 		inR[h.id] = true
 	}
 	var groups [][]hit
 	for _, h := range r {
-		if n := len(groups); n > 0 && groups[n-1][0].rank(mode) == h.rank(mode) {
+		if n := len(groups); n > 0 && groups[n-1][0].rank(sp) == h.rank(sp) {
 			groups[n-1] = append(groups[n-1], h)
 		} else {
 			groups = append(groups, []hit{h})
@@ -651,9 +661,9 @@ func canon(r []hit, full []hit, mode string) string {
 	}
 	straddle := false
 	if n := len(groups); n > 0 {
-		last := groups[n-1][0].rank(mode)
+		last := groups[n-1][0].rank(sp)
 		for _, e := range full {
-			if !inR[e.id] && e.rank(mode) == last {
+			if !inR[e.id] && e.rank(sp) == last {
 				straddle = true
 			}
 		}
@@ -1036,7 +1046,7 @@ func (r *runner) exec(o op) {
 			if len(hs) == 0 {
 				answers = append(answers, "-")
 			} else {
-				answers = append(answers, strings.Join(hs, ","))
+				answers = append(answers, strings.Join(hs, ";"))
 			}
 		}
 		res, err := c.nodes[o.entry].SearchPoints(c.col, sp.sr)
@@ -1046,16 +1056,9 @@ func (r *runner) exec(o op) {
 		}
 		impl := "err"
 		if err == nil {
-			impl = canon(rh, full, sp.mode)
+			impl = canon(rh, full, sp)
 		}
-		var od []string
-		for _, d := range sp.desc {
-			od = append(od, vh.B01(d))
-		}
-		opts := "-"
-		if len(od) > 0 {
-			opts = strings.Join(od, ",")
-		}
+		opts := sp.optsTok()
 		ans := "-"
 		if len(answers) > 0 {
 			ans = strings.Join(answers, "|")
@@ -1072,7 +1075,7 @@ func (r *runner) exec(o op) {
 				r.fail(sig+"limit", fmt.Sprintf("search returned %d results for limit %d", len(rh), o.limit))
 			}
 			seen := map[int]bool{}
-			for i, h := range rh {
+			for _, h := range rh {
 				if seen[h.id] {
 					r.fail(sig+"duplicate", fmt.Sprintf("point %d is returned twice", h.id))
 				}
@@ -1083,9 +1086,9 @@ func (r *runner) exec(o op) {
 				} else if f.enc() != h.enc() {
 					r.fail(sig+"altered", fmt.Sprintf("result %s differs from the shard's answer %s", h.enc(), f.enc()))
 				}
-				if i > 0 && cmpHits(rh[i-1], h, sp) > 0 {
-					r.fail(sig+"order", fmt.Sprintf("results %s and %s are out of order (mode %s, descending %v)", rh[i-1].enc(), h.enc(), sp.mode, sp.desc))
-				}
+			}
+			if i, j, bad := outOfOrder(rh, sp); bad {
+				r.fail(sig+"order", fmt.Sprintf("result %s (position %d) is returned before %s (position %d), which must precede it (mode %s, sort %s)", rh[i].enc(), i, rh[j].enc(), j, sp.mode, sp.optsTok()))
 			}
 			// every stored point exactly once: id lookups that no per-shard limit can cut
 			if o.skind == 5 && o.offset == 0 && !dupAcross && len(full) <= o.limit && o.limit <= 10 && (c.maxLimit == 0 || c.maxLimit >= o.limit) {
@@ -1176,12 +1179,12 @@ func genScenario(rng *vh.Rng, big bool) []op {
 		return 1 + rng.Intn(next)
 	}
 	search := func() {
-		o := op{kind: "search", entry: entry(), skind: rng.Intn(8), sarg: rng.Intn(64), offset: 0}
+		o := op{kind: "search", entry: entry(), skind: rng.Intn(15), sarg: rng.Intn(64), offset: 0}
 		o.limit = vh.Pick(rng, []int{1, 2, 3, 5, 10, 20, 100})
 		if big {
 			o.limit = vh.Pick(rng, []int{10, 30, 45, 60, 75, 100})
 			if rng.Chance(70) {
-				o.skind = vh.Pick(rng, []int{0, 1, 2, 4})
+				o.skind = vh.Pick(rng, []int{0, 1, 2, 4, 8, 10, 13})
 			}
 		}
 		if rng.Chance(30) {
@@ -1260,6 +1263,51 @@ func repeatedIdCorpus() []op {
 	}
 }
 
+// first payload k ≥ 0 for which point `id` carries an x that satisfies want (the mixed-kind properties
+// are functions of (id, k): the op lines stay ordinary insert lines, a replay stores the same values)
+func kWith(id int, want func(x any, ok bool) bool) int64 {
+	for k := int64(0); k < 100000; k++ {
+		d := map[string]any{}
+		mixedProps(d, id, k)
+		if x, ok := d["x"]; want(x, ok) {
+			return k
+		}
+	}
+	panic("kWith: no payload found")
+}
+
+func mixedKindCorpus() []op {
+	f64 := func(p func(float64) bool) func(any, bool) bool {
+		return func(x any, ok bool) bool { f, is := x.(float64); return ok && is && p(f) }
+	}
+	wants := []func(any, bool) bool{
+		func(x any, ok bool) bool { u, is := x.(uint8); return ok && is && u >= 128 },     // small unsigned
+		f64(func(f float64) bool { return f < 0 && f > -3 && f != math.Trunc(f) }),        // negative fraction
+		func(x any, ok bool) bool { u, is := x.(uint64); return ok && is && u >= 1<<63 },  // large unsigned
+		f64(func(f float64) bool { return f >= 1<<63 && f < 1<<63*2 }),                    // a float between 2^63 and 2^64
+		func(x any, ok bool) bool { i, is := x.(int64); return ok && is && i == 1<<53+1 }, // beyond 2^53
+		f64(func(f float64) bool { return f == 1<<53 }),                                   // the float64 next to it
+		func(x any, ok bool) bool { return !ok },                                          // property missing
+		func(x any, ok bool) bool { i, is := x.(int8); return ok && is && i < 0 },         // small negative integer
+		f64(func(f float64) bool { return f == 0 && math.Signbit(f) }),                    // −0
+		f64(func(f float64) bool { return f < -1e200 }),                                   // huge negative
+		func(x any, ok bool) bool { f, is := x.(float32); return ok && is && f < 0 },      // negative float32
+		f64(func(f float64) bool { return f == 200 }),                                     // a float equal to an integer
+	}
+	ins := op{kind: "insert", entry: 0}
+	for i, w := range wants {
+		ins.pts = append(ins.pts, [2]int64{int64(i + 1), kWith(i+1, w)})
+	}
+	ops := []op{{kind: "newcluster", servers: 2, maxShard: 1, maxLi: 75, useed: 17}, ins, {kind: "state"}}
+	for _, kind := range []int{8, 11, 13} {
+		for arg := 0; arg < 4; arg++ {
+			ops = append(ops, op{kind: "search", entry: arg % 2, skind: kind, sarg: arg, limit: 20})
+		}
+	}
+	ops = append(ops, op{kind: "search", entry: 1, skind: 8, sarg: 0, limit: 5, offset: 12}, op{kind: "search", entry: 0, skind: 8, sarg: 1, limit: 3})
+	return ops
+}
+
 func main() {
 	// own network namespace (or, failing that, an exclusive lock): no port can be taken by, and no
 	// connection can come from, another run on this machine; recorded ports of a replay are always free
@@ -1297,6 +1345,13 @@ func main() {
 		r.lines = nil
 		r.exec(c)
 	}
+	// corpus (runs first): one point per shard, the sort property an unsigned integer here, a negative float
+	// there, an integer beyond 2^53 beside the float64 next to it, …: only the cluster's merge orders them
+	for _, p := range mixedKindCorpus() {
+		r.exec(p)
+	}
+	r.c.close()
+	r.c = nil
 	cfgs := map[string]int{}
 	// fault scenarios: the corpus of minimised witnesses first, then random ones
 	fscs := faultCorpus()
